@@ -301,7 +301,10 @@ func (e *Engine) intrinsicFor(fn *ssa.Function) (string, bool) {
 	} else if _, ok := intrinsics[name]; ok {
 		res = name
 	} else {
-		for _, p := range noopPrefixes {
+		for i, p := range noopPrefixes {
+			if i == 0 && e.cfg.RealLogger {
+				continue
+			}
 			if strings.HasPrefix(name, p) {
 				res = "noop:" + name
 				break
